@@ -37,12 +37,21 @@ def ensure_facts(config="dev", repo=REPO, verbose=False):
     d = os.path.join(cache_root, "%s-%s" % (config, hsh[:24]))
     stamp = os.path.join(d, "OK")
     if os.path.exists(stamp) and all(os.path.getsize(os.path.join(d, CRATE_FILES[c])) > 0 for c in CRATES):
+        try:
+            os.utime(d, None)
+        except OSError:
+            pass
         return d, hsh, False
-    # drop stale caches of this config
+    # bound the cache: keep the 6 most recently used fact directories
     if os.path.isdir(cache_root):
-        for old in os.listdir(cache_root):
-            if old.startswith(config + "-"):
-                shutil.rmtree(os.path.join(cache_root, old), ignore_errors=True)
+        olds = [os.path.join(cache_root, o) for o in os.listdir(cache_root) if "-tmp-" not in o]
+        olds.sort(key=lambda p_: os.path.getmtime(p_), reverse=True)
+        for o in olds[6:]:
+            shutil.rmtree(o, ignore_errors=True)
+        for o in os.listdir(cache_root):
+            po = os.path.join(cache_root, o)
+            if "-tmp-" in o and time.time() - os.path.getmtime(po) > 600:
+                shutil.rmtree(po, ignore_errors=True)
     os.makedirs(cache_root, exist_ok=True)
     tmp = tempfile.mkdtemp(prefix=config + "-tmp-", dir=cache_root)
     t0 = time.time()
